@@ -446,13 +446,19 @@ def structured_trees(sp, rng):
     # (output axis -> block outputs, input axis -> block inputs), never to the other one
     up = lambda: lin.Reshape(sh, [6])              # noqa: E731   [6] -> [2, 3]
     down = lambda: lin.Reshape([6], sh)            # noqa: E731   [2, 3] -> [6]
+    def doubled(shape, ax):
+        o = list(shape); o[ax % len(shape)] *= 2
+        return o
     for ax in (-1, -2, 0, 1):
-        out.append((lin.Vstack([up(), lin.Multiply(sh, marr) * up()], axis=ax), ["struct:vstack-rank-up", "axis%d" % ax]))
-        out.append((lin.Hstack([down(), down() * lin.Multiply(sh, marr)], axis=ax), ["struct:hstack-rank-down", "axis%d" % ax]))
+        # the last log entry ("expect", oshape, ishape) is the shape the EXPRESSION must advertise, computed here from the definition
+        out.append((lin.Vstack([up(), lin.Multiply(sh, marr) * up()], axis=ax), ["struct:vstack-rank-up", "axis%d" % ax, ("expect", doubled(sh, ax), [6])]))
+        out.append((lin.Hstack([down(), down() * lin.Multiply(sh, marr)], axis=ax), ["struct:hstack-rank-down", "axis%d" % ax, ("expect", [6], doubled(sh, ax))]))
         for ia in (-1, 0):
-            out.append((lin.Diag([up(), lin.Multiply(sh, marr) * up()], oaxis=ax, iaxis=ia), ["struct:diag-rank-up", "oaxis%d" % ax, "iaxis%d" % ia]))
+            out.append((lin.Diag([up(), lin.Multiply(sh, marr) * up()], oaxis=ax, iaxis=ia),
+                        ["struct:diag-rank-up", "oaxis%d" % ax, "iaxis%d" % ia, ("expect", doubled(sh, ax), [12])]))
     for ia in (-1, -2, 0, 1):
-        out.append((lin.Diag([down(), down()], oaxis=rng.choice([0, -1]), iaxis=ia), ["struct:diag-rank-down", "iaxis%d" % ia]))
+        oa = rng.choice([0, -1])
+        out.append((lin.Diag([down(), down()], oaxis=oa, iaxis=ia), ["struct:diag-rank-down", "iaxis%d" % ia, ("expect", [12], doubled(sh, ia))]))
     return out
 
 
